@@ -237,7 +237,7 @@ open Aldrin.System
 
 /-- two clients, interleaved; client 1 has two requests on their way before the broker handles any -/
 def hist : List SysEv :=
-  [.attach 1 14, .brokerEvent (.newConn 1 14), .attach 2 14, .brokerEvent (.newConn 2 14),
+  [.attach 1 14, .attach 2 14,
    .clientSends 1 (.sync 7), .clientSends 1 (.createChannel 8 .sender 0), .clientSends 2 (.sync 7),
    .brokerHandles 1, .brokerHandles 2, .brokerHandles 1]
 
